@@ -2,13 +2,11 @@
 The Lean files generated from the Go source by `vextract` (see /tmp/agents/p10/vextract):
 `vextract <repo dir> Anytype/Generated`.  Building this module re-checks that the source still
 has the shape the proofs are about.
+The translated method families (ListGen, ObjectGen, TreeFormGen with their `…GenEq` proofs) are separate
+build targets (their generated names overlap); `check` builds the ones that bear on a property.
 -/
 import Anytype.Generated.Async
 import Anytype.Generated.WriteSet
 import Anytype.Generated.Api
 import Anytype.Generated.ParserGen
 import Anytype.Lemmas.ParserGenEq
-import Anytype.Generated.ObjectGen
-import Anytype.Lemmas.ObjectGenEq
-import Anytype.Generated.TreeFormGen
-import Anytype.Lemmas.TreeFormGenEq
